@@ -1,3 +1,33 @@
+/-
+  C17 — "Any number of threads calling create_dir_all concurrently on arbitrary, possibly
+  overlapping paths of one filesystem (with no concurrent removals and no files in the way) all
+  return success under every interleaving, and afterwards every requested path and each of its
+  ancestors is a directory."
+
+  Object: the concurrency model VfsModel/Conc.lean; `create_dir_all` is one lock region
+  (`MemoryFS::create_dir`) per prefix, `DirectoryExists` tolerated (`Pt.cdaLoop`).
+
+  EVERYTHING below is PROVED; nothing in this file is "stated, not proved".
+
+   `create_dir_all_concurrent`   any number of threads, thread i = [create_dir_all (renderC cs_i)],
+        components `GoodComp`, initial map `WF`, no prefix of any path is a file. For EVERY
+        schedule: (a) the map stays `WF` and is the initial map plus directories (`Grow`: old
+        entries unchanged, new entries are directories: no file appears, nothing disappears);
+        (b) no thread ever records `.err`; (c) when all threads have finished every result list
+        is `[Ok(())]` and every requested path and each of its prefixes is a directory.
+   `create_dir_all_concurrent_progs`   the same for threads that each make a SEQUENCE of
+        `create_dir_all` calls (slash-free components suffice); (c) per finished thread.
+   `stepThread_cda`   the step of one thread: the region for prefix k finds its parent (prefix
+        k-1, made by the thread's previous region or found, or the root) a directory, so
+        `MemoryFS::create_dir` returns Ok or DirectoryExists (`createDir_ok_or_exists`), both of
+        which `cdaLoop` treats as success (`region_cdaLoop_ok`); `createDir_grow`.
+   `TInv`, `SInv`, `settle_inv`, `step_inv`, `run_inv`   the thread / system invariants.
+   `createDir_regions_monotone`, `createDir_prefix_monotone`   the parametric remark: the three
+        regions of the path-level `VfsPath::create_dir` (two probes reading facts that are
+        monotone under `Grow`, then insert-or-DirectoryExists) pass on three maps that only grow.
+   Non-vacuity: two threads `/a/b` and `/a/c`, five schedules evaluated by the kernel
+        (`decide +kernel`), and the theorem instantiated on that system for every schedule.
+-/
 import VfsModel.Proofs.ConcLemmas
 import VfsModel.Proofs.TransferLemmas
 namespace Vfs.C17
@@ -480,5 +510,101 @@ theorem create_dir_all_concurrent (m : FMap) (paths : List (List Str)) (hm : WF 
     · apply hall
       rw [dirPrefixes_renderC cs (fun c hc => (hgood cs hcs c hc).2.1)]
       exact renderC_mem_ancChain cs hnil
+
+/-! ## The same argument for the path-level `create_dir` (parametric remark)
+
+The proof above only uses: the regions before the last one READ facts that are monotone under
+`Grow` ("the parent is a directory"), and the last region is "insert, or `DirectoryExists`".
+`VfsPath::create_dir` has exactly this shape (`exists(parent)`, `metadata(parent)`,
+`MemoryFS::create_dir`), so a thread that walks the prefixes with `VfsPath::create_dir` and
+tolerates `DirectoryExists` (what AltrootFS does through its inner `VfsPath`) cannot fail either,
+as long as the other threads only add directories. -/
+
+theorem createDir_regions_monotone (p : Str) (hs : '/' ∈ p) (m1 m2 m3 : FMap)
+    (g12 : Grow m1 m2) (g23 : Grow m2 m3) (hp : IsDir m1 (parentInternal p))
+    (hnf : ∀ e, m3.find? p = some e → e.ftype = .dir) :
+    (region m1 (.gpExists p false none)).next = .inl (.gpMeta p false none) ∧
+    (region m2 (.gpMeta p false none)).next = .inl (.cdCreate p) ∧
+    ((Mem.createDir m3 p).1 = .ok () ∨ ∃ q, (Mem.createDir m3 p).1 = .err .dirExists q) ∧
+    (region m3 (.cdCreate p)).files = (Mem.createDir m3 p).2 ∧
+    IsDir (Mem.createDir m3 p).2 p ∧ Grow m3 (Mem.createDir m3 p).2 := by
+  have hp2 : IsDir m2 (parentInternal p) := g12.isDir hp
+  have hp3 : IsDir m3 (parentInternal p) := g23.isDir hp2
+  obtain ⟨h1, h2⟩ := createDir_ok_or_exists m3 p hs hp3 hnf
+  refine ⟨?_, ?_, h1, ?_, h2, createDir_grow m3 p⟩
+  · rw [(gp_ok m1 p false none hp).1]
+  · rw [(gp_ok m2 p false none hp2).2]; rfl
+  · rw [region_cdCreate]
+
+/-- … at prefix `k` of a canonical path: if prefix `k-1` was a directory when the thread started
+on prefix `k` (it made it itself, or found it), the three regions of `VfsPath::create_dir` on
+prefix `k` pass, whatever directories the other threads add in between -/
+theorem createDir_prefix_monotone (cs : List Str) (hsl : ∀ c ∈ cs, '/' ∉ c) (k : Nat)
+    (hk : k < cs.length) (m1 m2 m3 : FMap) (g12 : Grow m1 m2) (g23 : Grow m2 m3)
+    (hprev : IsDir m1 (renderC (cs.take k)))
+    (hnf : ∀ e, m3.find? (renderC (cs.take (k + 1))) = some e → e.ftype = .dir) :
+    let p := renderC (cs.take (k + 1))
+    (region m1 (.gpExists p false none)).next = .inl (.gpMeta p false none) ∧
+    (region m2 (.gpMeta p false none)).next = .inl (.cdCreate p) ∧
+    ((Mem.createDir m3 p).1 = .ok () ∨ ∃ q, (Mem.createDir m3 p).1 = .err .dirExists q) ∧
+    IsDir (Mem.createDir m3 p).2 p := by
+  intro p
+  obtain ⟨hslash, hpar⟩ := prefix_facts cs hsl k hk
+  obtain ⟨h1, h2, h3, _, h5, _⟩ := createDir_regions_monotone p hslash m1 m2 m3 g12 g23
+    (by rw [hpar]; exact hprev) hnf
+  exact ⟨h1, h2, h3, h5⟩
+
+/-! ## Non-vacuity: two threads, overlapping paths, several schedules -/
+
+def cA : Str := ['a']
+def cB : Str := ['b']
+def cC : Str := ['c']
+def pA : Str := ['/', 'a']
+def pAB : Str := ['/', 'a', '/', 'b']
+def pAC : Str := ['/', 'a', '/', 'c']
+
+/-- T0 = `create_dir_all("/a/b")`, T1 = `create_dir_all("/a/c")` on a fresh MemoryFS -/
+def ex : Sys :=
+  { files := Mem.init, threads := [{ calls := [.createDirAll pAB] }, { calls := [.createDirAll pAC] }] }
+
+/-- every thread returned `Ok(())`, and "/a", "/a/b", "/a/c" are directories -/
+def allOkAllDirs (s : Sys) : Prop :=
+  s.threads.map (·.results) = [[.ok .unit], [.ok .unit]] ∧
+  [pA, pAB, pAC].map (fun q => (s.files.find? q).map (·.ftype)) = [some .dir, some .dir, some .dir]
+
+instance (s : Sys) : Decidable (allOkAllDirs s) := by unfold allOkAllDirs; exact inferInstance
+
+example : renderC [cA, cB] = pAB ∧ renderC [cA, cC] = pAC := by decide
+example : allOkAllDirs (run ex [0, 0, 1, 1]) := by decide +kernel
+example : allOkAllDirs (run ex [0, 1, 0, 1]) := by decide +kernel
+example : allOkAllDirs (run ex [1, 0, 0, 1]) := by decide +kernel
+example : allOkAllDirs (run ex [1, 1, 0, 0, 1, 0]) := by decide +kernel
+/-- "/a" is created by the thread that comes first; the other one sees `DirectoryExists` -/
+example : (run ex [0, 1]).files.keys = [pA, []] ∧
+    (run ex [0, 1]).threads.map (·.cur) = [some (.cdaLoop [pAB]), some (.cdaLoop [pAC])] := by
+  decide +kernel
+
+theorem init_only_dirs (q : Str) (e : Entry) (h : Mem.init.find? q = some e) : e.ftype = .dir := by
+  simp only [Mem.init, FMap.find?_cons, FMap.find?_nil] at h
+  split at h
+  · injection h with h; subst h; rfl
+  · cases h
+
+/-- the hypotheses of `create_dir_all_concurrent` are satisfiable: the theorem applied to the
+example, for every schedule -/
+example (schedule : List Nat) :
+    WF (run ex schedule).files ∧ Grow Mem.init (run ex schedule).files ∧
+    (∀ t ∈ (run ex schedule).threads, ∀ r ∈ t.results, r = .ok .unit) ∧
+    ((∀ t ∈ (run ex schedule).threads, Finished t) →
+      IsDir (run ex schedule).files pA ∧ IsDir (run ex schedule).files pAB ∧
+      IsDir (run ex schedule).files pAC) := by
+  obtain ⟨⟨h1, h2⟩, h3, h4⟩ := create_dir_all_concurrent Mem.init [[cA, cB], [cA, cC]] WF.init_mem
+    (by decide) (fun _ _ q _ e he => init_only_dirs q e he) schedule
+  refine ⟨h1, h2, h3, ?_⟩
+  intro hfin
+  obtain ⟨_, h5⟩ := h4 hfin
+  have hab := h5 [cA, cB] (by simp)
+  have hac := h5 [cA, cC] (by simp)
+  exact ⟨hab.2 pA (by decide), hab.1, hac.1⟩
 
 end Vfs.C17
